@@ -198,7 +198,7 @@ def _ratio(ck, drv, rng):
     fwd = " ".join(f"{int(p)} {int(c)}" for p, c in tr._forward_indices.tolist())
     det = " ".join(str(int(d)) for d in tr._det_indices.tolist())
     bounds = [float(v) for v in tr._bounds[n:]]
-    impl = [float(logj)] + [float(v) for v in glog] + [float(h) for h in heights.detach()] + [
+    impl = [float(logj.detach())] + [float(v) for v in glog] + [float(h) for h in heights.detach()] + [
         float(jac[k, i]) for i in range(m) for k in range(m)]
     for op in ("ratio", "ratio_def"):
         rep = _ask(drv, f"{op} {n} | {fwd} | {det} | {_hx(bounds)} | {_hx(xs.detach().tolist())}")
